@@ -26,7 +26,7 @@ Entry(o) == <<o.op, o.n, o.v, OutOf(o), PAllowed(plast, o, "ok"),
               IF EmitTriples THEN SetToSeq(PTriples') ELSE <<>>,
               IF EmitTriples THEN SetToSeq({t \in {<<CAuth(c[1], c[2])', c[1], c[2]>> : c \in AuthUniverse} : t[1] # ""}) ELSE <<>> >>
 
-GenTry(o) == /\ units < GenLen \/ (Paired /\ last.op = "prepare")
+GenTry(o) == /\ units < GenLen \/ (Paired /\ last.owed # "" /\ o.op = "commit")
              /\ Try(o)
              /\ hist' = Append(hist, Entry(o))
              /\ units' = units + (IF Paired /\ o.op = "commit" THEN 0 ELSE 1)
@@ -39,6 +39,6 @@ GenNext == \/ \E n \in NS, v \in Version : GenTry(Op("prepare", n, v))
 
 GenSpec == GenInit /\ [][GenNext]_<<vars, hist, units, start>>
 
-Complete == units = GenLen /\ (Paired => last.op # "prepare")
+Complete == units = GenLen /\ (Paired => last.owed = "")
 Emit == Complete => PrintT(<<"CASE", ToJson([sc |-> sc, ns |-> NSSeq, init |-> AsSeq(start), steps |-> hist])>>)
 ===================================================================================
